@@ -440,69 +440,6 @@ func runC02(c *Ctx) {
 				"the file entry extracted at "+bad+" is not preceded by the comparison of its path with the destination: a file can be written in the place of the destination")
 		}
 	}
-	// X5: the sanitiser accepts a name that resolves to the destination itself (X2: destPath == destination). That is safe
-	// only while the destination is a directory — a file entry of that name then fails to open ("is a directory") — so the
-	// destination is made a directory before the first entry is handled: with the creation moved behind the loop, a
-	// destination that does not exist yet and is named like an archive (out.zip) becomes a regular file holding the entry's
-	// content, is taken for a nested archive in recursive mode and is extracted into its sibling <parent>/out.
-	c.rule("X5", "the destination is made a directory (MkDir of the cleaned destination parameter) before any entry is extracted: every call that writes an entry is dominated by it", 1)
-	{
-		unz := st.unzip
-		var mk []*ssa.Call
-		var writers []*ssa.Call
-		dest := paramIndexByName(unz, "destination")
-		allInstrs(unz, func(in ssa.Instruction) {
-			cl, ok := in.(*ssa.Call)
-			if !ok {
-				return
-			}
-			if name, args, isFs := fsMethodCall(cl); isFs && (name == "MkDir" || name == "MkDirAll") && len(args) > 0 && dest >= 0 {
-				onlyDest := true
-				n := 0
-				for _, l := range sources(args[0], deriveOpts{through: func(n string) bool { return strings.HasSuffix(n, "filepath.Clean") }}) {
-					n++
-					if l != ssa.Value(unz.Params[dest]) {
-						onlyDest = false
-					}
-				}
-				if onlyDest && n > 0 {
-					mk = append(mk, cl)
-					return
-				}
-			}
-			if g := staticCallee(&cl.Call); g != nil && inPkg(fsPkgRel)(g) && inLoop(cl) {
-				// what the loop calls to put an entry on disk: the package's own extraction helpers and the backend's mutators
-				if strings.HasPrefix(g.Name(), "unzip") {
-					writers = append(writers, cl)
-				}
-			}
-			if name, _, isFs := fsMethodCall(cl); isFs && fsMutators[name] && inLoop(cl) {
-				writers = append(writers, cl)
-			}
-		})
-		key := fname(unz) + "/destination-is-a-directory-first"
-		switch {
-		case len(writers) == 0:
-			c.undecided("X5", key, c.pos(unz.Pos()), "no call that extracts an entry was found in the loop of unzip")
-		case len(mk) == 0:
-			c.violate("X5", key, c.pos(unz.Pos()), "unzip no longer makes its destination a directory itself: a file entry whose name resolves to the destination (\".\", \"a/..\") creates a regular file there")
-		default:
-			bad := ""
-			for _, w := range writers {
-				okW := false
-				for _, m := range mk {
-					if dominates(m, w) {
-						okW = true
-					}
-				}
-				if !okW {
-					bad = c.ipos(w)
-				}
-			}
-			c.check(bad == "", "X5", key, c.ipos(mk[0]), "every extraction of an entry follows the creation of the destination directory",
-				"the entry extracted at "+bad+" can be written before the destination was made a directory: the sanitiser accepts a name that resolves to the destination itself (\".\", \"assets/..\"), which is harmless only while that is a directory — for a destination that does not exist yet and is named like an archive (out.zip, bundle.jar) the entry becomes a regular file there, recursive mode takes it for a nested archive and extracts it into the sibling directory <parent>/out: files are created and overwritten outside the destination")
-		}
-	}
 	// extraction call graph: unzip + unexported package functions it reaches
 	reach := c.reachable([]*ssa.Function{st.unzip}, false, func(g *ssa.Function) bool {
 		if !inPkg(fsPkgRel)(g) {
